@@ -55,6 +55,8 @@ func c02Run(f []string) string {
 		return c02PlanRun(f)
 	case "named":
 		return c02NamedRun(f)
+	case "rx", "rxkey":
+		return c02RxRun(f)
 	case "filt", "vis", "idx":
 		return c02FilterRun(f)
 	case "ctx":
@@ -252,6 +254,8 @@ func c02Gen(r *Rand, tier string) []string {
 	out = append(out, c02FilterGen(NewRand(r.U64()), tier)...)
 	// {name} through the real regex wrapper's name table
 	out = append(out, c02NamedGen(NewRand(r.U64()), tier)...)
+	// the regex engine itself against the model's leftmost-first matcher (fragment of the syntax)
+	out = append(out, c02RxGen(NewRand(r.U64()), tier)...)
 	// the matcher the flags select (helpers.BuildMatcherFromArguments)
 	out = append(out, c02PlanGen(NewRand(r.U64()), tier)...)
 	// the whole pipeline with late consumption (shared with C01)
@@ -303,6 +307,7 @@ func c02Stats(cases []string) map[string]int {
 	}
 	c02FilterStats(cases, st)
 	c02NamedStats(cases, st)
+	c02RxStats(cases, st)
 	return st
 }
 
